@@ -511,7 +511,11 @@ lookup_pfn_block(kdump_ctx_t *ctx, kdump_pfn_t pfn, unsigned short tolerance)
 	while (block) {
 		if (block->idx3 > idx)
 			break;
-		if (idx <= block->idx3 + block->n + tolerance)
+		if (idx <= block->idx3 + block->n)
+			return block;
+		/* A block may grow towards the next block, but not into it. */
+		if (idx <= block->idx3 + block->n + tolerance &&
+		    !(block->next && block->next->idx3 <= idx))
 			return block;
 		block = block->next;
 	}
